@@ -54,13 +54,15 @@ let string_of_z (x : coq_Z) : string =
         go q (Char.chr (48 + d) :: acc) in
     let digits = go a [] in
     if neg then Buffer.add_char buf '-';
-    List.iter (Buffer.add_char buf) digits;
+    Stdlib.List.iter (Buffer.add_char buf) digits;
     Buffer.contents buf
 
 let rec nat_of_int (n : int) : nat = if n <= 0 then O else S (nat_of_int (n - 1))
 let rec int_of_nat (n : nat) : int = match n with O -> 0 | S k -> 1 + int_of_nat k
 
 let split_ws (line : string) : string list =
-  List.filter (fun s -> s <> "") (String.split_on_char ' ' (String.trim line))
+  Stdlib.List.filter (fun s -> s <> "") (String.split_on_char ' ' (String.trim line))
 
 let sb b = if b then "1" else "0"
+
+let rec n_of_int (n : int) : coq_N = if n = 0 then N0 else Npos (pos_of_int n)
